@@ -37,6 +37,9 @@ fn leaf_value(leaf: &str, rng: &mut Rng) -> (DynVal, DynType) {
             DynVal::Struct(vec![("a", DynVal::I32(1)), ("b", DynVal::Str("x".into()))]),
             DynType::Struct(vec![("a", DynType::I32), ("b", DynType::Str)]),
         ),
+        // C05: objects with no / one declared field (a struct visitor with an empty field list is a path of its own)
+        "struct0" => (DynVal::Struct(vec![]), DynType::Struct(vec![])),
+        "struct1" => (DynVal::Struct(vec![("a", DynVal::I32(1))]), DynType::Struct(vec![("a", DynType::I32)])),
         other => panic!("harness: unknown leaf {other}"),
     }
 }
@@ -335,7 +338,7 @@ fn c05_case(case: &Value) -> Result<Value, String> {
     let mut rng = Rng::new(case["seed"].as_u64().unwrap_or(1));
     let path: Vec<String> = case["path"].as_array().unwrap().iter().map(|s| s.as_str().unwrap().to_string()).collect();
     let names: Vec<String> = case["names"].as_array().unwrap().iter().map(|s| s.as_str().unwrap().to_string()).collect();
-    let (val, ty) = build(&path, "struct", &mut rng);
+    let (val, ty) = build(&path, case["shape"].as_str().unwrap_or("struct"), &mut rng);
     let clean = cj::to_string(&val).map_err(|e| e.to_string())?;
     let mut doc: Value = serde_json::from_str(&clean).map_err(|e| e.to_string())?;
     inject(&mut doc, &path, &names, &case["payload"])?;
